@@ -218,6 +218,11 @@ func VerifC15Mirror(size, requests, faults, restart int) {
 		pendingN = n
 	}
 	p1 := int64(1 + verifConcretize(verifChoice("first-checkpoint", size)))
+	if size > 16 {
+		// large logs: sizes and ranges around the tile boundary only
+		p1 = c15Boundary("first-checkpoint", size)
+		verifAssume(p1 >= 1)
+	}
 	advance(0, p1)
 	_ = pendingKey
 	var ticket []byte
@@ -233,6 +238,9 @@ func VerifC15Mirror(size, requests, faults, restart int) {
 		}
 		start := int64(verifConcretize(verifChoice("start", size+1)))
 		end := int64(verifConcretize(verifChoice("end", size+1)))
+		if size > 16 {
+			start, end = c15Boundary("start", size), c15Boundary("end", size)
+		}
 		if end < start {
 			verifAssume(false)
 		}
@@ -289,6 +297,16 @@ func VerifC15Mirror(size, requests, faults, restart int) {
 	}
 	check()
 	verifReach("done")
+}
+
+// c15Boundary picks one of 0, 1, 255, 256, 257, size (those that are <= size).
+func c15Boundary(tag string, size int) int64 {
+	set := []int64{0, 1, 255, 256, 257, int64(size)}
+	v := set[verifConcretize(verifChoice(tag, len(set)))]
+	if v > int64(size) {
+		verifAssume(false)
+	}
+	return v
 }
 
 // VerifC15Cut: the mirror checkpoint is committed at a mid-tile size cutN that is behind next_entry.
